@@ -298,9 +298,12 @@ func GenPlan(t *rapid.T, profile string, k Knobs) *Plan {
 					na.Then = rapid.SliceOfN(rapid.SampledFrom([]string{ActDisconnect, ActReconnect}), 1, 3).Draw(t, "n_then")
 				}
 				p.Timeline = append(p.Timeline, na)
-				switch rapid.IntRange(0, 4).Draw(t, "n_gap") {
+				switch rapid.IntRange(0, 5).Draw(t, "n_gap") {
 				case 0:
 					cur += 1
+				case 5:
+					// the instant at which the grace timer of this notification (if it armed one) fires
+					cur += p.graceOf(i)
 				case 1:
 					cur += at("n_g", 1, 150*time.Millisecond)
 				case 2:
@@ -350,8 +353,13 @@ func GenPlan(t *rapid.T, profile string, k Knobs) *Plan {
 // GenStopAction draws one of the stop variants.
 func GenStopAction(t *rapid.T, at time.Duration, inst int, h time.Duration) Action {
 	a := Action{At: at, Inst: inst}
-	if rapid.IntRange(0, 2).Draw(t, "stop_variant") == 0 {
+	switch rapid.IntRange(0, 7).Draw(t, "stop_variant") {
+	case 0, 1:
 		a.Kind = ActStop
+		return a
+	case 2:
+		// the third documented way to stop: cancel the context that was passed to Start
+		a.Kind = ActCancelCtx
 		return a
 	}
 	a.Kind = ActStopCtx
